@@ -219,8 +219,15 @@ def validate_workers(workers, name):
                 fh.write(workertrace.CFG_ED % (mode, 'TRUE' if ae else 'FALSE'))
             else:
                 fh.write(workertrace.CFG % (meas, 'TRUE' if ae else 'FALSE', mode))
-        verd, st = runner.validate(recs, {'ED': 'TraceWorkersED', 'OC': 'TraceWorkersOC', 'SUF': 'TraceWorkersSuffix'}.get(meas, 'TraceWorkers'),
-                                   '%s-%s-%s-%s' % (name, meas, mode, ae), batch=1200, cfg_path=cfg_path)
+        try:
+            verd, st = runner.validate(recs, {'ED': 'TraceWorkersED', 'OC': 'TraceWorkersOC', 'SUF': 'TraceWorkersSuffix'}.get(meas, 'TraceWorkers'),
+                                       '%s-%s-%s-%s' % (name, meas, mode, ae), batch=1200, cfg_path=cfg_path)
+        except (tlc.TLCError, runner.MachineryError) as exc:
+            # hook events so far from the specification that an action cannot even be evaluated on them: this layer
+            # only ever reports DRIFT; the property-level verdict on the same executions comes from TraceAPI
+            drift.append('%s worker %s/%s/allow_empty=%s: %d traces could not be replayed (%s)' % (
+                name, mode, meas, ae, len(recs), str(exc).splitlines()[0][:160]))
+            continue
         states += st['states']
         validated += len(recs)
         for tid, v in verd.items():
